@@ -254,3 +254,40 @@ theorem rotate_only_to_next (st : Store) (u : Update) (h : (apply st u).cur ≠ 
 #print axioms change_needs_two_thirds
 #print axioms rotate_only_to_next
 end Lc
+
+namespace Lc
+/-- a rotation uses the stored next committee up: afterwards the store holds as "next" exactly what this update supplied
+    (nothing, for a finality update) - never the committee it has just made current (seeded change C12e) -/
+theorem stageCommittee_rotation_next (st : Store) (u : Update) (h : (stageCommittee st u).cur ≠ st.cur) :
+    (stageCommittee st u).next = u.nextComm := by
+  unfold stageCommittee at h ⊢
+  split
+  · rename_i hn; simp [hn] at h
+  · split
+    · rfl
+    · rename_i hn hp; simp [hn, hp] at h
+
+theorem stageFin_committees (st : Store) (u : Update) :
+    (stageFin st u).cur = st.cur ∧ (stageFin st u).next = st.next := by
+  unfold stageFin; split
+  · simp only; split <;> simp
+  · exact ⟨rfl, rfl⟩
+
+theorem rotation_consumes_next (st : Store) (u : Update) (h : (apply st u).cur ≠ st.cur) :
+    (apply st u).next = u.nextComm := by
+  have m := stageMax_eff st u
+  have o := stageOpt_eff (stageMax st u) u
+  unfold apply at h ⊢
+  simp only at h ⊢
+  split
+  · rename_i hs
+    simp only [hs, if_true] at h
+    have f := stageFin_committees (stageCommittee (stageOpt (stageMax st u) u) u) u
+    rw [f.1] at h
+    rw [f.2]
+    apply stageCommittee_rotation_next
+    rw [o.2.2.1, m.2.2.1]; exact h
+  · rename_i hs
+    simp only [hs, if_false] at h
+    exact absurd (by rw [o.2.2.1, m.2.2.1]) h
+end Lc
